@@ -477,6 +477,9 @@ type builderCase struct {
 	Unit    uint8        `json:"unit"`
 	Addr    uint16       `json:"addr"`
 	Qty     uint16       `json:"qty"`
+	// Others: this many other devices (server, unit) have fields in the same builder, added between the two fields of the request
+	// under test (a program polling several devices value by value)
+	Others int `json:"others,omitempty"`
 }
 
 func runBuilder(c builderCase) harness.Result {
@@ -487,10 +490,15 @@ func runBuilder(c builderCase) harness.Result {
 	}
 	last := uint16(int(c.Addr) + int(c.Qty) - 1)
 	b := modbus.NewRequestBuilder("", 0)
-	b.AddAll([]modbus.Field{
-		{Name: "first", ServerAddress: "dev:502", UnitID: c.Unit, Address: c.Addr, Type: typ},
-		{Name: "last", ServerAddress: "dev:502", UnitID: c.Unit, Address: last, Type: typ},
-	})
+	fields := []modbus.Field{{Name: "first", ServerAddress: "dev:502", UnitID: c.Unit, Address: c.Addr, Type: typ}}
+	for i := 0; i < c.Others; i++ {
+		fields = append(fields, modbus.Field{Name: fmt.Sprintf("other%d", i), ServerAddress: fmt.Sprintf("other%d:502", i%3), UnitID: uint8(i), Address: uint16(100 + i), Type: typ})
+	}
+	fields = append(fields, modbus.Field{Name: "last", ServerAddress: "dev:502", UnitID: c.Unit, Address: last, Type: typ})
+	for i := 0; i < c.Others; i++ {
+		fields = append(fields, modbus.Field{Name: fmt.Sprintf("again%d", i), ServerAddress: fmt.Sprintf("other%d:502", i%3), UnitID: uint8(i), Address: uint16(103 + i), Type: typ})
+	}
+	b.AddAll(fields)
 	var reqs []modbus.BuilderRequest
 	var err error
 	switch {
@@ -510,6 +518,17 @@ func runBuilder(c builderCase) harness.Result {
 		reqs, err = b.ReadInputRegistersTCP()
 	default:
 		reqs, err = b.ReadInputRegistersRTU()
+	}
+	if err == nil && c.Others > 0 {
+		// the request for the device under test
+		var mine []modbus.BuilderRequest
+		for _, r := range reqs {
+			if r.ServerAddress == "dev:502" && r.UnitID == c.Unit {
+				mine = append(mine, r)
+			}
+		}
+		reqs = mine
+		labels = append(labels, "builder-serves-several-devices")
 	}
 	if err != nil || len(reqs) != 1 {
 		// how fields are batched is another property's subject; only single requests are compared here
@@ -552,6 +571,9 @@ func genBuilder(t *rapid.T) builderCase {
 	c.Addr = gen.U16(t, "addr", gen.HotAddr)
 	if int(c.Addr)+int(c.Qty) > 65536 {
 		c.Addr = uint16(65536 - int(c.Qty))
+	}
+	if rapid.IntRange(0, 2).Draw(t, "with_others") == 0 {
+		c.Others = rapid.IntRange(1, 9).Draw(t, "others")
 	}
 	return c
 }
